@@ -29,6 +29,8 @@ type Loc struct {
 	Idx  string     // element index when Elem
 	BT   types.Type // type of the base object / element
 	Path []PathElem
+	Sl   string // originating slice term and index (for trigger-friendly element reads)
+	SlIx string
 }
 
 type PathElem struct {
@@ -247,6 +249,9 @@ func isArray(t types.Type) (*types.Array, bool) {
 func (x *Exec) baseLoad(heaps map[string]string, epoch int, l *Loc) string {
 	if l.Elem {
 		h := heapSymIn(x, heaps, epoch, eName(l.BT), x.eSort(l.BT))
+		if l.Sl != "" {
+			return fmt.Sprintf("(%s %s %s %s)", x.selFn(l.BT), h, l.Sl, l.SlIx)
+		}
 		return fmt.Sprintf("(select (select %s %s) %s)", h, l.Ref, l.Idx)
 	}
 	if a, ok := isArray(l.BT); ok {
@@ -255,6 +260,15 @@ func (x *Exec) baseLoad(heaps map[string]string, epoch int, l *Loc) string {
 	}
 	h := heapSymIn(x, heaps, epoch, hName(l.BT), x.hSort(l.BT))
 	return fmt.Sprintf("(select %s %s)", h, l.Ref)
+}
+
+// selFn declares the element-read function of slices with element type t:
+// sel(E, s, i) = E[arr s][off s + i]. Using a function symbol gives quantifiers a usable trigger.
+func (x *Exec) selFn(t types.Type) string {
+	es := x.so.sortOf(t)
+	name := q("sel:" + es)
+	x.so.decl(name, fmt.Sprintf("(declare-fun %s ((Array Int (Array Int %s)) Slice Int) %s)\n(assert (forall ((E (Array Int (Array Int %s))) (s Slice) (i Int)) (! (= (%s E s i) (select (select E (s.arr s)) (+ (s.off s) i))) :pattern ((%s E s i)))))", name, es, es, es, name, name))
+	return name
 }
 
 func (x *Exec) pathGet(v string, path []PathElem) string {
@@ -873,7 +887,7 @@ func (x *Exec) instr(st *State, in ssa.Instruction) bool {
 			x.safety(st, "nil-deref", fmt.Sprintf("(not (= %s 0))", base.S), i.Pos())
 		}
 		ct := l.typeAt()
-		nl := &Loc{Elem: l.Elem, Ref: l.Ref, Idx: l.Idx, BT: l.BT, Path: append(append([]PathElem(nil), l.Path...), PathElem{Field: i.Field, T: ct})}
+		nl := &Loc{Elem: l.Elem, Ref: l.Ref, Idx: l.Idx, BT: l.BT, Sl: l.Sl, SlIx: l.SlIx, Path: append(append([]PathElem(nil), l.Path...), PathElem{Field: i.Field, T: ct})}
 		st.top().vals[i] = Val{Loc: nl, T: i.Type()}
 	case *ssa.IndexAddr:
 		base := x.get(st, i.X)
@@ -883,7 +897,7 @@ func (x *Exec) instr(st *State, in ssa.Instruction) bool {
 			x.safety(st, "index-range", fmt.Sprintf("(and (<= 0 %s) (< %s (s.len %s)))", idx.S, idx.S, base.S), i.Pos())
 			ix := x.def(st, "Int", fmt.Sprintf("(+ (s.off %s) %s)", base.S, idx.S))
 			arr := x.def(st, "Int", fmt.Sprintf("(s.arr %s)", base.S))
-			st.top().vals[i] = Val{Loc: &Loc{Elem: true, Ref: arr, Idx: ix, BT: u.Elem()}, T: i.Type()}
+			st.top().vals[i] = Val{Loc: &Loc{Elem: true, Ref: arr, Idx: ix, BT: u.Elem(), Sl: base.S, SlIx: idx.S}, T: i.Type()}
 		case *types.Pointer:
 			arr, _ := isArray(u.Elem())
 			x.safety(st, "index-range", fmt.Sprintf("(and (<= 0 %s) (< %s %d))", idx.S, idx.S, arr.Len()), i.Pos())
@@ -892,7 +906,7 @@ func (x *Exec) instr(st *State, in ssa.Instruction) bool {
 				st.top().vals[i] = Val{Loc: &Loc{Elem: true, Ref: base.S, Idx: idx.S, BT: arr.Elem()}, T: i.Type()}
 			} else {
 				l := base.Loc
-				nl := &Loc{Elem: l.Elem, Ref: l.Ref, Idx: l.Idx, BT: l.BT, Path: append(append([]PathElem(nil), l.Path...), PathElem{IsIdx: true, Idx: idx.S, T: u.Elem()})}
+				nl := &Loc{Elem: l.Elem, Ref: l.Ref, Idx: l.Idx, BT: l.BT, Sl: l.Sl, SlIx: l.SlIx, Path: append(append([]PathElem(nil), l.Path...), PathElem{IsIdx: true, Idx: idx.S, T: u.Elem()})}
 				st.top().vals[i] = Val{Loc: nl, T: i.Type()}
 			}
 		}
